@@ -41,9 +41,11 @@ def build_repo(rng, root, big=False):
             put(c + '/metadata.xml', b'<catmetadata/>')
         for p in rng.sample(['foo', 'bar-baz', 'libqux'], rng.randrange(0, 3)):
             d = '%s/%s' % (c, p)
-            for v in rng.sample(['1.0', '2.1-r1'], rng.randrange(1, 3)):
+            # (sometimes a package whose last ebuild is gone: metadata.xml, files/ and the old Manifest remain)
+            nver = 0 if rng.random() < 0.15 else rng.randrange(1, 3)
+            for v in rng.sample(['1.0', '2.1-r1'], nver):
                 put('%s/%s-%s.ebuild' % (d, p, v), b'EAPI=8\n' + blob(20))
-            if rng.random() < 0.7:
+            if nver == 0 or rng.random() < 0.7:
                 put(d + '/metadata.xml', b'<pkgmetadata/>')
             if rng.random() < 0.5:
                 put('%s/files/%s.patch' % (d, p), blob(200000 if big and rng.random() < 0.5 else 30))
